@@ -135,3 +135,43 @@ def mask_query(tier: str, prop: str) -> list[dict]:
         dict(d, policy="mlp_ac", kind="discrete", dims=[4], K=32, L=10, obs_kind="tuple"),
         dict(d, policy="mlp_q", kind="discrete", dims=[2], K=4096, L=3, epsilon=0.02),
     ]
+
+
+def ring(tier: str, prop: str) -> list[dict]:
+    replay = [
+        dict(mode="replay", C=1, nodes=1, obs_kind="box", act_kind="discrete"),
+        dict(mode="replay", C=3, nodes=1, obs_kind="dict", act_kind="box"),
+        dict(mode="replay", C=5, nodes=2, obs_kind="box", act_kind="discrete"),
+        dict(mode="replay", C=4, nodes=3, obs_kind="tuple", act_kind="box"),
+        dict(mode="replay", C=8, nodes=1, obs_kind="discrete", act_kind="discrete"),
+        dict(mode="replay", C=2, nodes=4, obs_kind="box", act_kind="box"),
+        dict(mode="replay", C=12, nodes=2, obs_kind="dict", act_kind="discrete"),
+    ]
+    rollout = [
+        dict(mode="rollout", n=1, T=7, B=3, obs_kind="box", act_kind="discrete"),
+        dict(mode="rollout", n=3, T=5, B=4, obs_kind="dict", act_kind="box"),
+        dict(mode="rollout", n=4, T=4, B=16, obs_kind="tuple", act_kind="discrete"),
+        dict(mode="rollout", n=2, T=8, B=5, obs_kind="discrete", act_kind="box"),
+        dict(mode="rollout", n=4, T=16, B=7, obs_kind="box", act_kind="box"),
+        dict(mode="rollout", n=1, T=1, B=1, obs_kind="box", act_kind="discrete"),
+    ]
+    if prop == "C06":
+        return replay
+    if prop == "C09":
+        return rollout
+    return replay + rollout
+
+
+def update(tier: str, prop: str) -> list[dict]:
+    base = [
+        dict(algo="PPO", n=1, T=7, E=1, nb=2),     # N=7,  B=3: one dropped
+        dict(algo="PPO", n=3, T=5, E=3, nb=2),     # N=15, B=7: one dropped, 3 epochs
+        dict(algo="PPO", n=4, T=4, E=2, nb=4),     # N=16, B=4: exact partition
+        dict(algo="PPO", n=2, T=8, E=4, nb=3),     # N=16, B=5
+        dict(algo="PPO", n=1, T=5, E=1, nb=1),     # single batch
+        dict(algo="A2C", n=3, T=4),
+        dict(algo="REINFORCE", n=2, T=6),
+    ]
+    if tier == "quick":
+        return base
+    return base + [dict(algo="PPO", n=4, T=16, E=3, nb=9), dict(algo="PPO", n=2, T=3, E=3, nb=1), dict(algo="A2C", n=1, T=9)]
